@@ -272,6 +272,7 @@ type modLoc struct {
 	slice     *Val
 	mapv      *Val
 	src       string
+	freshOnly bool // *newcells T: only cells that did not exist at the entry of the function under verification
 }
 
 // resolveMods turns "modifies" location expressions into heap locations.
@@ -320,6 +321,17 @@ func (g *Gen) resolveMods(con *Contract, env *Env) []modLoc {
 			}
 			if strings.HasPrefix(m, "*chan") {
 				out = append(out, modLoc{arr: "G!chan!len", sort: "Int", src: src}, modLoc{arr: "G!chan!closed", sort: "Bool", src: src}, modLoc{arr: "G!chan!cap", sort: "Int", src: src})
+				return
+			}
+			if strings.HasPrefix(m, "*newcells ") {
+				// captured / address-taken locals of the given type that did not exist when the function under
+				// verification was entered (the callee's own locals, written by the callbacks it hands out)
+				t, err := g.W.parseType(strings.TrimSpace(m[10:]))
+				if err != nil {
+					trFail("%v", err)
+				}
+				s := sortOf(t)
+				out = append(out, modLoc{arr: "C!" + sortTag(s), sort: s, src: src, freshOnly: true})
 				return
 			}
 			if strings.HasPrefix(m, "*elems ") {
@@ -477,6 +489,8 @@ func (f *frame) applyContract(con *Contract, key string, args []Val, rt *types.T
 	mods := g.resolveMods(con, env)
 	for _, m := range mods {
 		switch {
+		case m.freshOnly:
+			g.dirty[m.arr] = true
 		case m.all && m.slice != nil:
 			g.noteWrite(m.arr, "(s-arr "+m.slice.T+")")
 		case m.idx == "":
@@ -485,6 +499,12 @@ func (f *frame) applyContract(con *Contract, key string, args []Val, rt *types.T
 			g.noteWrite(m.arr, m.idx)
 		}
 		switch {
+		case m.freshOnly:
+			a := g.arr(st.heap, m.arr, m.sort)
+			na := g.fresh("newcells")
+			g.declare(na, "(Array Int "+m.sort+")")
+			g.assumeUnder(st.reach, fmt.Sprintf("(forall ((x Int)) (! (=> (select %s x) (= (select %s x) (select %s x))) :pattern ((select %s x))))", g.arr(f.entry, "alloc", "Bool"), na, a, na))
+			g.assignArr(st.heap, m.arr, m.sort, na)
 		case m.all && m.slice != nil:
 			es := m.sort
 			a := g.arr(st.heap, m.arr, es)
